@@ -13,7 +13,7 @@ import ast
 
 from ..absint import parse_call_term
 from ..actions import ActionAnalysis, strip, trail_text
-from ..model import Program, norm
+from ..model import Program, call_name, norm
 from ..report import Report
 from .c04 import attr_value
 from .relabel import relabel_args, steps_of
@@ -131,6 +131,7 @@ def run(P: Program, R: Report, tier: str) -> None:
                             f"lineage written is {strip(val)}", via="dataflow")
     id_truthiness(P, R, "R05.4")
     walk_completeness(P, R, "R05.5")
+    bulk_write_arity(P, R, "R05.6")
 
 
 ID_SOURCES = ("get_track_neighbors", "get_lineage_id", "get_track_id", "get_next_track_id", "get_next_lineage_id")
@@ -291,3 +292,39 @@ def walk_completeness(P: Program, R: Report, rule: str) -> None:
                     R.check(not g or not variant, rule, m, q, f"{m.short}: successors are enqueued for every visited node",
                             f"enqueueing is conditional on {sorted(set(variant))}: part of the subtree is never visited", via="loop-shape")
     R.floor(rule, "lineage walks", n, 1)
+
+
+def bulk_write_arity(P: Program, R: Report, rule: str) -> None:
+    """`_set_nodes_attr(nodes, key, values)` pairs nodes with values positionally and silently stops at the shorter
+    one.  When the values are built from a length (`[v] * len(X)`) or by mapping a collection (`[.. for n in X]`),
+    X has to be the very collection passed as `nodes` - otherwise some nodes keep their old value."""
+    from ..resolve import Resolver
+
+    n = 0
+    for fn in P.functions.values():
+        if fn.parent is not None or not any(f".{m}." in fn.qname for m in ("annotators", "data_model", "actions", "user_actions")):
+            continue
+        rs = None
+        for c in ast.walk(fn.node):
+            if not (isinstance(c, ast.Call) and isinstance(c.func, ast.Attribute) and c.func.attr in ("_set_nodes_attr", "_set_edges_attr") and len(c.args) >= 3):
+                continue
+            rs = rs or Resolver(P, fn)
+            nodes, vals = c.args[0], c.args[2]
+            v = rs.expand(vals)
+            src = None
+            if isinstance(v, ast.BinOp) and isinstance(v.op, ast.Mult):
+                for side in (v.left, v.right):
+                    if isinstance(side, ast.Call) and call_name(side) == "len" and side.args:
+                        src = side.args[0]
+            elif isinstance(v, (ast.ListComp, ast.GeneratorExp)) and len(v.generators) == 1:
+                src = v.generators[0].iter
+            elif isinstance(v, ast.Call) and call_name(v) in ("list", "tuple") and v.args and isinstance(v.args[0], (ast.ListComp, ast.GeneratorExp)):
+                src = v.args[0].generators[0].iter
+            if src is None:
+                continue
+            n += 1
+            a, b = rs.text(nodes), rs.text(src)
+            same = a == b or norm(nodes) == norm(src) or b in (f"list({a})", f"tuple({a})") or a in (f"list({b})", f"tuple({b})")
+            R.check(same, rule, fn, c, f"{fn.short}: bulk write pairs `{norm(nodes)[:30]}` with one value per element of the same collection",
+                    f"values are built from `{norm(src)[:40]}` but written to `{norm(nodes)[:40]}`: the pairing stops at the shorter one and the remaining nodes keep their old value")
+    R.floor(rule, "bulk writes with derived value lists", n, 1)
